@@ -1,6 +1,7 @@
 """gzip container writer with controllable parameters, and the reference
 decoder verdict used by C10 (Python zlib, wbits=31, following members)."""
 
+import struct
 import zlib
 
 
@@ -80,3 +81,21 @@ def verdict(stream):
             return 'invalid', 'incomplete'
         rest = d.unused_data
     return 'valid', out
+
+
+def backref_pair(data, cut, level=6):
+    """Two gzip members for data[:cut] and data[cut:], the second of which is NOT valid on its own: its deflate
+    stream was produced with the tail of the first member's data as preset dictionary, so it contains matches that
+    reach back before its own start (RFC 1951 forbids that; a decoder that keeps its window from one member to the
+    next would not notice).  CRC-32 and ISIZE of the second member are those of data[cut:].  Returns the stream, or
+    None when the compressor found nothing to reference in the dictionary (the stream would then be valid)."""
+    a, b = data[:cut], data[cut:]
+    if not a or not b:
+        return None
+    co = zlib.compressobj(level, zlib.DEFLATED, -15, 9, 0, a[-32768:])
+    raw = co.compress(b) + co.flush()
+    m2 = bytes([0x1F, 0x8B, 8, 0, 0, 0, 0, 0, 0, 3]) + raw + struct.pack('<II', zlib.crc32(b) & 0xFFFFFFFF, len(b) & 0xFFFFFFFF)
+    stream = member(a, level=level) + m2
+    if verdict(stream)[0] == 'valid':
+        return None
+    return stream
